@@ -691,6 +691,45 @@ impl Gen {
                 return;
             }
         }
+        if self.p.w_compact > 0 && self.p.w_reader > 0 && self.readers.len() < 4 && rng.random_range(0..100) < 6 {
+            // compact() while a read transaction is open, in every position relative to pending non-durable commits
+            // (the reader may sit on the durable commit, on a pending one, or before both): it must be refused, and run
+            // once the reader is gone
+            let normal: Vec<(String, Ty)> = self.known.iter().filter(|(_, t)| t.0 == "t").map(|(n, t)| (n.clone(), t.clone())).collect();
+            if !normal.is_empty() {
+                let (n, ty) = normal[rng.random_range(0..normal.len())].clone();
+                let pending = rng.random_range(0..3usize);
+                let reader_at = rng.random_range(0..=pending + 1);
+                let h = self.fresh("r");
+                for t in 0..=pending {
+                    if t == reader_at {
+                        self.queue.push_back(json!({"e": "br", "h": h}));
+                    }
+                    self.queue.push_back(json!({"e": "bw"}));
+                    // the first of them is durable: what follows is pending on top of it
+                    if t > 0 {
+                        self.queue.push_back(json!({"e": "dur", "d": "none"}));
+                    }
+                    self.queue.push_back(json!({"e": "open", "n": n, "kind": "t", "kt": ty.1, "vt": ty.2}));
+                    for _ in 0..rng.random_range(1..5) {
+                        let v = self.value(rng, &ty.2);
+                        self.queue.push_back(json!({"e": "ins", "n": n, "k": self.key(rng, &n), "v": v}));
+                    }
+                    self.queue.push_back(json!({"e": "close", "n": n}));
+                    self.queue.push_back(json!({"e": "commit"}));
+                }
+                if reader_at == pending + 1 {
+                    self.queue.push_back(json!({"e": "br", "h": h}));
+                }
+                self.queue.push_back(json!({"e": "compact"}));
+                self.queue.push_back(json!({"e": "dump", "src": h}));
+                self.queue.push_back(json!({"e": "dr", "h": h}));
+                if rng.random_range(0..2) == 0 {
+                    self.queue.push_back(json!({"e": "compact"}));
+                }
+                return;
+            }
+        }
         if self.p.w_savepoint > 0 && self.p.w_reader > 0 && self.readers.len() < 4 && rng.random_range(0..100) < 5 {
             // a reader that is OLDER than a live savepoint: the reader begins, a durable commit frees pages of its tree,
             // a savepoint is made on top of that commit and kept while more durable commits run (their epilogues release
